@@ -7,7 +7,10 @@ git diff --quiet || { echo "/repo has uncommitted changes; refusing"; exit 2; }
 git apply "$D/patch.diff" || { echo "patch does not apply"; exit 2; }
 trap 'git -C /repo checkout -- . ; git -C /repo clean -fdq' EXIT INT TERM
 if [ -f "$D/demo.py" ]; then (cd /repo && timeout 300 /venv/bin/python "$D/demo.py" >/dev/null 2>&1; echo "demo on mutated tree: exit $?"); fi
+cp /verif/evidence/$P.json /var/tmp/try_seeded_evidence_$P.json 2>/dev/null
 cd /verif && ./check "$P" --tier "$T" > /var/tmp/try_seeded.out 2>&1
 rc=$?
+# the evidence file committed in /verif must come from the UNCHANGED tree: put the clean one back
+cp /var/tmp/try_seeded_evidence_$P.json /verif/evidence/$P.json 2>/dev/null
 cut -c1-300 /var/tmp/try_seeded.out
 echo "check exit: $rc"
